@@ -33,4 +33,6 @@ import PvModel.Props.C17Query
 #print axioms Pv.C17_query_program
 #print axioms Pv.C17_path_state_invariants
 #print axioms Pv.C17_query_exactly_once
+#print axioms Pv.C17_query_complete
+#print axioms Pv.C17_query_no_duplicates
 #print axioms Pv.C17_query_count
